@@ -29,6 +29,31 @@ TRUTHY_OK = {
 }
 
 
+# parameters that carry a number (or a seed) for which 0 / 0.0 / False-like values are legal and
+# meaningful; across the package none of them is ever tested for truthiness today (surveyed), so
+# `if fill_value:` / `seed or default` can only mean "0 is treated as not given"
+NUMERIC_PARAMS = {
+    "fill_value", "seed", "random_state", "ddof", "k", "q", "depth", "limit", "value", "n", "num", "step", "stop",
+    "offset", "shift", "periods", "a_min", "a_max", "initial", "ident", "loc", "scale", "low", "high", "min", "max",
+}
+
+
+def _truth_tests(f):
+    out = []
+    for node in ast.walk(f):
+        tests = []
+        if isinstance(node, (ast.If, ast.While, ast.IfExp)):
+            tests.append(node.test)
+        if isinstance(node, ast.BoolOp):
+            tests.extend(node.values[:-1] if isinstance(node.op, ast.Or) else node.values)
+        if isinstance(node, ast.UnaryOp) and isinstance(node.op, ast.Not):
+            tests.append(node.operand)
+        for t in tests:
+            if isinstance(t, ast.Name):
+                out.append((t.id, node))
+    return out
+
+
 def anchor_files(prop: str) -> list[str]:
     p = os.path.join(os.path.dirname(os.path.dirname(os.path.abspath(__file__))), "properties.jsonl")
     with open(p) as f:
@@ -75,3 +100,24 @@ def check(ctx):
                 if isinstance(st, ast.Assign) and len(st.targets) == 1 and isinstance(st.targets[0], ast.Name) and st.targets[0].id in nonep and isinstance(st.value, ast.BoolOp) and isinstance(st.value.op, ast.Or) and isinstance(st.value.values[0], ast.Name) and st.value.values[0].id == st.targets[0].id:
                     pass  # the `x = x or d` spelling is surveyed separately (see OR_OK)
     ctx.count("none_default_rebinds", n)
+    # ---------------- TRUTH.numeric-param
+    from .srcmodel import param_names
+    from .dataflow import reaching_of
+
+    for rel in anchor_files(ctx.prop):
+        if not model.exists(rel):
+            continue
+        mod = model.module(rel)
+        for qn, f in mod.functions():
+            ps = set(param_names(f)) & NUMERIC_PARAMS
+            if not ps:
+                continue
+            for nm, node in _truth_tests(f):
+                if nm in ps:
+                    ctx.ob(
+                        "TRUTH.numeric-param",
+                        node,
+                        f"{qn}: `{nm}` is a number/seed: it is compared with None, never tested for truthiness",
+                        False,
+                        f"`{unparse(node)[:60]}` treats {nm}=0 (a legal value) like a missing argument",
+                    )
